@@ -6,7 +6,7 @@
 //	transport {in-process, HTTP on a recorder, HTTP with the response pushed
 //	           through net/http's own wire writer/parser}
 //	x RPC kind {unary, client-stream, server-stream, bidi (half-duplex)}
-//	x handler outcome {nil, every status (19 codes x 7 messages x 13 detail
+//	x handler outcome {nil, every status (19 codes x 10 messages x 13 detail
 //	           lists), plain error, context.Canceled, context.DeadlineExceeded,
 //	           io.EOF, a wrapped status}
 //	x position {before any response, between responses, after the last one}
@@ -62,6 +62,8 @@ import (
 var msgAlphabet = []struct{ ID, Text string }{
 	{"empty", ""}, {"colon", "a:b"}, {"percent", "100%d"}, {"nonascii", "é"},
 	{"crlf", "a\r\nb"}, {"trailsp", "x "}, {"badutf8", "\xff"},
+	// well-formed percent-escapes and '+' (what URL / grpc-message style decoding would rewrite)
+	{"pctenc", "50%25 of a%20b"}, {"pctreserved", "a%2Fb%3Ac%0A"}, {"plus", "a+b"},
 }
 
 func msgText(id string) string {
@@ -918,7 +920,7 @@ func main() {
 	cov := map[string]interface{}{
 		"evaluations":         evals,
 		"distinct_nontrivial": len(distinct),
-		"rule": "total enumeration of transport {inproc, http (recorder), httpwire (recorder + net/http wire writer/parser)} x kind {unary, cstream, sstream, bidi half-duplex} x outcome {nil, plain, context.Canceled, context.DeadlineExceeded, io.EOF, 2 wrapped statuses, status: 19 codes (0..17, 99) x 7 messages x 13 ordered detail lists of length 0..2} x position {before, [between,] after} x last response encodable/not (only where a response precedes the return). " +
+		"rule": "total enumeration of transport {inproc, http (recorder), httpwire (recorder + net/http wire writer/parser)} x kind {unary, cstream, sstream, bidi half-duplex} x outcome {nil, plain, context.Canceled, context.DeadlineExceeded, io.EOF, 2 wrapped statuses, status: 19 codes (0..17, 99) x 10 messages x 13 ordered detail lists of length 0..2} x position {before, [between,] after} x last response encodable/not (only where a response precedes the return). " +
 			"A case is non-trivial when the handler really returned a non-nil error or handed over an unencodable response, i.e. the error/trailer path of the transport ran; distinct by (transport, kind, outcome, responses handed over, encodable). " +
 			"Cut dimension (HTTP client): for 19 recorded genuine replies (unary ok/error; sstream and bidi with 0..2 responses, cstream; handler ok / NotFound with 2 details; header and trailer metadata) every proper prefix of the reply body x {clean io.EOF, io.ErrUnexpectedEOF} plus RoundTrip error before/after the request; every such case is non-trivial (it runs the client's truncation handling), distinct by (scenario, offset, ending).",
 		"cut_cases":              cutEvals,
